@@ -1,6 +1,6 @@
 /-
 Operator expressions (the fragment of SymPy expressions that `NumberOrderedForm.from_expr` accepts
-structurally: scalars, generators, number operators, sums, products, non-negative integer powers), the
+structurally: scalars, generators, number operators, functions of the number operators, sums, products, non-negative integer powers), the
 model of `from_expr` on them, and the *direct* Fock action of an expression — composition of the
 actions of its generators, with no normal ordering involved.  Core Lean only.
 -/
@@ -13,6 +13,7 @@ inductive OpExpr where
   | scalar (z : GRat)
   | gen (i : Nat) (creation : Bool)
   | number (i : Nat)
+  | fn (f : Occ → GRat)              -- any function of the number operators (`exp(N)`, `2**N`, `1/(N + 1/2)`, `Abs(N)`, …): diagonal in the occupation basis
   | add (a b : OpExpr)
   | mul (a b : OpExpr)
   | pow (a : OpExpr) (k : Nat)
@@ -24,6 +25,7 @@ def fromExpr (c : Ctx) : OpExpr → Form
   | .scalar z => scalar c z
   | .gen i b => gen c i b
   | .number i => number c i
+  | .fn f => [{ powers := List.replicate c.n 0, coeff := f }]
   | .add a b => add (fromExpr c a) (fromExpr c b)
   | .mul a b => mul c (fromExpr c a) (fromExpr c b)
   | .pow a k => npow c (fromExpr c a) k
@@ -43,6 +45,7 @@ def actE (c : Ctx) : OpExpr → Occ → Img
   | .scalar z, s => [(s, z)]
   | .gen i b, s => (genAct c i b s).toList
   | .number i, s => [(s, ofInt (Occ.get s i))]
+  | .fn f, s => [(s, f s)]
   | .add a b, s => actE c a s ++ actE c b s
   | .mul a b, s => Img.bind (actE c b s) (actE c a)
   | .pow a k, s => powAct (actE c a) k s
@@ -55,6 +58,7 @@ def OpExpr.wf (c : Ctx) : OpExpr → Bool
   | .scalar _ => true
   | .gen i _ => decide (i < c.n)
   | .number i => decide (i < c.n)
+  | .fn _ => true
   | .add a b => a.wf c && b.wf c
   | .mul a b => a.wf c && b.wf c
   | .pow a _ => a.wf c
